@@ -203,9 +203,17 @@ type c14Blk struct {
 
 var c14Scripts = [][]byte{{}, {0x51}, {0x76, 0xa9, 0x14, 1, 2, 3, 4, 5, 6, 7, 8, 9, 10, 11, 12, 13, 14, 15, 16, 17, 18, 19, 20, 0x88, 0xac}, {0x6a, 0x02, 0xca, 0xfe},
 	// script 4: byte-identical to the serialisation of outpoint 0 (an entry that must be de-duplicated against it)
-	func() []byte { o := c14OutPoint(0); return ref.OutPointBytes(o.Hash, o.Index) }()}
+	func() []byte { o := c14OutPoint(0); return ref.OutPointBytes(o.Hash, o.Index) }(),
+	// scripts 5..8: length ladder (520/521: push limit, 10000/10001: script size limit, 65536)
+	bytes.Repeat([]byte{0x51}, 521), bytes.Repeat([]byte{0x52}, 10000), bytes.Repeat([]byte{0x53}, 10001), bytes.Repeat([]byte{0x54}, 65536)}
 
 func c14OutPoint(d byte) wire.OutPoint {
+	switch d {
+	case 3: // the null outpoint (what a coinbase input carries), here possibly on a NON-coinbase input
+		return wire.OutPoint{Index: 0xffffffff}
+	case 4: // same previous txid as outpoint 0, different index (entries sharing a 32-byte prefix)
+		return wire.OutPoint{Hash: chainhash.Hash{0xa0, 0x01, 0}, Index: 9}
+	}
 	return wire.OutPoint{Hash: chainhash.Hash{0xa0 + d, 0x01, d}, Index: uint32(d) * 0x01000001}
 }
 
@@ -337,7 +345,7 @@ type c14Bld struct {
 }
 
 var c14Menu = []string{"SetKey", "SetKeyFromHash", "SetP:0", "SetP:19", "SetP:32", "SetP:33", "SetM:0", "SetM:1", "SetM:4294967295", "SetM:4294967296",
-	"Preallocate", "AddEntry:a", "AddEntry:b", "AddEntries:a,c", "AddHash", "Key", "Build"}
+	"Preallocate", "AddEntry:a", "AddEntry:b", "AddEntries:a,c", "AddEntries:,b", "AddHash", "Key", "Build"}
 
 func c14EvalBuilder(w *mc.W, cas c14Bld) {
 	c := w.Ctx()
@@ -412,6 +420,11 @@ func c14EvalBuilder(w *mc.W, cas c14Bld) {
 				if !latched {
 					mData[op[9:]] = true
 				}
+			case "AddEntries:,b":
+				b = b.AddEntries([][]byte{{}, []byte("b")})
+				if !latched {
+					mData[""], mData["b"] = true, true
+				}
 			case "AddEntries:a,c":
 				b = b.AddEntries([][]byte{[]byte("a"), []byte("c")})
 				if !latched {
@@ -475,7 +488,7 @@ func c14EvalBuilder(w *mc.W, cas c14Bld) {
 func runC14(c *mc.Ctx) {
 	c13SelfTest()
 	c.Note("hook_fastReduction", hookFastReduction != nil)
-	c.Rule("encoding: 2 keys x 12 (P,M) x all multisets of size <= 3 over the collision-aware item alphabet, plus N in {252,253,65535,65536} and P in {0..33}: Bytes/NBytes/PBytes/NPBytes against the reference Golomb-Rice bit string and CompactSize, FromBytes/FromNBytes round trips with identical answers; fastReduction (hook) on all combinations of 32-bit halves over 9 boundary values and all 4-bit-half placements against math/bits.Mul64; basic and mempool block filters over all blocks of a coinbase + <= 2 transactions with <= 2 inputs over 3 outpoints and <= 2 outputs over 4 scripts; all builder op chains of depth <= 4 (5 thorough) over a 17-op menu from 4 constructors against a record model with an error latch; non-trivial = non-empty encodings / carries / latched chains")
+	c.Rule("encoding: 2 keys x 12 (P,M) x all multisets of size <= 3 over the collision-aware item alphabet, plus N in {252,253,65535,65536} and P in {0..33}: Bytes/NBytes/PBytes/NPBytes against the reference Golomb-Rice bit string and CompactSize, FromBytes/FromNBytes round trips with identical answers; fastReduction (hook) on all combinations of 32-bit halves over 9 boundary values and all 4-bit-half placements against math/bits.Mul64; basic and mempool block filters over all blocks of a coinbase + <= 2 transactions with <= 2 inputs over 3 outpoints and <= 2 outputs over 4 scripts; all builder op chains of depth <= 4 (5 thorough) over a 18-op menu from 4 constructors against a record model with an error latch; non-trivial = non-empty encodings / carries / latched chains")
 	c.Assume("reference SipHash-2-4, 128-bit multiply, Golomb-Rice bit string and CompactSize are correct; wire block hashing trusted")
 
 	// 1. encodings
@@ -540,8 +553,8 @@ func runC14(c *mc.Ctx) {
 	}
 
 	// 3. block filters
-	insets := []string{"", "0", "1", "2", "00", "01", "12"}
-	outsets := []string{"", "0", "1", "2", "3", "11", "12", "01", "31", "4", "41"}
+	insets := []string{"", "0", "1", "2", "00", "01", "12", "3", "04", "34"}
+	outsets := []string{"", "0", "1", "2", "3", "11", "12", "01", "31", "4", "41", "5", "6", "7", "8", "71"}
 	var txAlpha []string
 	for _, in := range insets {
 		for _, out := range outsets {
